@@ -107,6 +107,26 @@ def run(ctx):
                             ctx.violation("square_root_mod_prime raised %s for a non-residue" % type(e).__name__, {"a": nr, "p": m})
                         break
         ctx.nontrivial.add(("big", m))
+    # the same residue inverted under different moduli back to back, small and production size
+    for a in (2, 3, 5, 7, 255, 65537):
+        for m in [11, 13, 257, 101, 46337, 9973] * 2:
+            if math.gcd(a, m) == 1 and (a % m) * m < 2 ** 31:
+                events.append({"op": "inverse", "a": a, "m": m, "out": int(nt.inverse_mod(a, m)), "ok": True})
+        for m in big[:6] + big[:6][::-1]:
+            i = int(nt.inverse_mod(a, m))
+            events.append({"op": "big-inverse", "a": n2l(a % m), "m": n2l(m), "out": n2l(i), "q": n2l(((a % m) * i - 1) // m)})
+    # Jacobi symbol of 2^t q^2 at production size (values with long runs of trailing zero bits)
+    for m in sorted(set(big[::2] + extra_primes)):
+        for t in (1, 2, 7, 8, 31, 32, 47, 48, 49, 52, 53, 54, 63, 64, 65, 100, m.bit_length() - 10):
+            for q in (1, 3, 11):
+                a = (q * q) << t
+                if a >= m:
+                    continue
+                try:
+                    out, ok = int(nt.jacobi(a, m)), True
+                except BaseException:  # noqa
+                    out, ok = 0, False
+                events.append({"op": "big-jacobi2", "p": n2l(m), "t": t, "q": q, "out": out, "ok": ok})
     ntdrv.validate(ctx, events, describe)
     ctx.sample(events[0] if len(events[0].get("outs", [])) < 40 else {k: v for k, v in events[0].items() if k != "outs"})
     ctx.sample(core.compact(events[-1]))
